@@ -309,6 +309,11 @@ def wire_job(c):
             if k_ in d:
                 j[k_] = d[k_]
         j['argv'] = ['--warc-file', 'w']
+    elif ctx == 'ftpopt':
+        d = G.ftp_option_classes()[cls]
+        for k_ in ('hostile', 'mlsd', 'argv', 'prefiles', 'run_as', 'norec', 'only_file'):
+            if k_ in d:
+                j[k_] = d[k_]
     elif ctx == 'httpwarc':
         d = G.http_warc_classes()[cls]
         j.update(data=d['data'], close=d['close'], fail=d['fail'], path=d['path'], argv=['--warc-file', 'w'], cuts=None)
@@ -427,7 +432,11 @@ def run_ftp(j):
         site = dict(hosts={'a.test': X.A_IP}, urls=[], robots={})
         db = os.path.join(d, 't.db')
         ftp = dict(files=files, dirs=dirs, listings=listings, hostile=j.get('hostile'), mlsd=j.get('mlsd'))
+        if j.get('only_file'):
+            start = ['ftp://f.test/h.txt']
         argv = X.ftp_argv(db, d, start, extra=j.get('argv', ()))
+        if j.get('norec'):
+            argv.remove('-r')
         _prefiles(d, j)
         if j.get('sslv'):
             argv.remove('--no-check-certificate')
@@ -435,6 +444,8 @@ def run_ftp(j):
         r.execute()
         rows = read_rows(db, r) if os.path.exists(db) else []
         others = [u for u in ('ftp://f.test/', 'ftp://f.test/a.txt', 'ftp://f.test/c.txt', 'ftp://f.test/h.txt') if u != target]
+        if j.get('norec'):
+            others = [u for u in start if u != target]          # without -r only the start URLs are fetched
         if ctx == 'ftproot':
             others = []         # the hostile URL is the start listing: nothing else is ever discovered
         return _facts(r, rows, target, others, dir_target=target.endswith('/'))
